@@ -312,3 +312,38 @@ class CuckooWorld(Scenario):
             c = dict(cfg)
             c["hash"] = "default"
             yield c
+
+
+# ---------------------------------------------------------------------- restart (export -> load) for world K
+def cuckoo_export(world, f, chan):
+    """Export f over one channel; returns the payload bytes (and the path for 'path')."""
+    from ..seams import SimFile
+    import os
+
+    if chan == "bytes":
+        return bytes(f), None
+    if chan == "fileobj":
+        sink = SimFile()
+        f.export(sink)
+        return sink.getvalue(), None
+    if chan == "path":
+        p = os.path.join(world.ctx.scratch, "cuckoo.cko")
+        f.export(p)
+        with open(p, "rb") as fh:
+            return fh.read(), p
+    raise HarnessError(chan)
+
+
+def cuckoo_load(world, payload, path, chan):
+    """Load through the class's own loader, re-supplying only what the format does not store."""
+    cfg = world.cfg
+    cls = world.cls
+    if chan == "path":
+        g = cls(filepath=path, finger_size=cfg["finger_size"], expansion_rate=cfg["expansion_rate"],
+                auto_expand=cfg["auto_expand"], hash_function=world.hf)
+    else:
+        g = cls.frombytes(payload, hash_function=world.hf)
+        g.fingerprint_size = cfg["finger_size"]
+        g.expansion_rate = cfg["expansion_rate"]
+        g.auto_expand = cfg["auto_expand"]
+    return g
